@@ -92,6 +92,8 @@ def run_property(chk: Check, pid: str, props_module: str, theorems: List[str], m
     for b in bad[:3]:
         if b >= 0:
             h = hs[b]
+            chk.add_candidate(dict(kind=kinds[b], loglevel=h.loglevel, timing=h.timing, timecode=h.timecode,
+                                   events=h.cevents, history=h.case_json(), implementation_crash=res[b]["crash"]))
             chk.broken_obligation("correspondence Model/Manager.v vs MessageManager differs",
                                   f"history #{b} ({kinds[b]}) loglevel={h.loglevel} crash={res[b]['crash']}: "
                                   + "; ".join(h.cevents)[:700])
